@@ -34,11 +34,11 @@ def flag(d):
 
 
 def proj_values(d):      # C04: what is delivered (values, kinds, order), not the contexts
-    return (flag(d), strip_ctx(d.get('trace')))
+    return (flag(d), strip_ctx(d.get('trace')), d.get('alias'))
 
 
 def proj_grammar(d):     # C01: shape of the delivered trace and of the refused notifications
-    return (flag(d), kinds(d.get('trace')), sorted(toks(d.get('drops'))))
+    return (flag(d), kinds(d.get('trace')), sorted(toks(d.get('drops'))) if 'drops' in d else None)
 
 
 def proj_all(d):
@@ -57,17 +57,104 @@ def nontrivial_op(case, gd):
     return 'N' in case.split('src=')[-1] and (gd.get('trace', '-') != '-' or gd.get('drops', '-') != '-')
 
 
+# ---------------------------------------------------------------- regenerated table, Python view
+# Mirrors lean/RoModel/FactPreds.lean. Used only to NAME the offending rows and to focus the
+# dynamic search when the Lean `decide` over the regenerated table fails; it decides nothing.
+
+KNOWN_UNSAFE_PASSTHROUGH = ["StartWith", "Defer", "Catch", "TapOnSubscribeWithContext", "TapOnFinalize"]
+ASYNC_BY_DESIGN = ["Interval", "IntervalWithInitial", "FromChannel", "Never", "Future", "ToChannel", "Delay", "Timeout", "detachOn", "ThrowOnContextCancel"]
+KNOWN_CTX_ROWS = {("MergeAll", "complete", "lastSeen"), ("OnErrorResumeNextWith", "error", "lastSeen"), ("OnErrorResumeNextWith", "complete", "lastSeen"),
+                  ("WhileIWithContext", "subscribe", "lastSeen"), ("ReduceIWithContext", "next", "lastSeen"), ("RepeatWith", "complete", "lastSeen"),
+                  ("Timeout", "error", "lastSeen"), ("DefaultIfEmptyWithContext", "next", "outer"), ("ContextReset", "next", "outer"),
+                  ("ContextReset", "error", "outer"), ("ContextReset", "complete", "outer")}
+KNOWN_STATE_ROWS = {("ShareWithConfig", "refCount")}
+KNOWN_WAITING = ["ConcatAll", "OnErrorResumeNextWith", "RetryWithConfig", "DoWhileIWithContext", "WhileIWithContext", "RepeatWith", "Timer", "detachOn"]
+
+
+def catalogue():
+    path = os.path.join(R.LEAN, 'RoGen', 'catalogue.json')
+    return json.load(open(path)) if os.path.exists(path) else []
+
+
+def serialized(r):
+    return r['Ctor'] in ('safe', 'eventuallySafe')
+
+
+def bad_rows(prop):
+    """rows of the regenerated table that are neither fine nor a listed known deviation"""
+    out = []
+    for r in catalogue():
+        n = r['Name']
+        if prop == 'C02':
+            if r['Ctor'] == 'unknown' or (r['Feeders'] >= 2 and not serialized(r)) or (r['PassThrough'] and not serialized(r) and n not in KNOWN_UNSAFE_PASSTHROUGH):
+                out.append((n, f"ctor={r['Ctor']} feeders={r['Feeders']} passThrough={r['PassThrough']} ({r['File']}:{r['Line']})"))
+        elif prop == 'C08':
+            if r['AsyncEmit'] and n not in ASYNC_BY_DESIGN:
+                out.append((n, f"emits downstream from a goroutine/timer of its own ({r['File']}:{r['Line']})"))
+        elif prop == 'C09':
+            for c in r['CtxRows'] or []:
+                if c['Prov'] not in ('param', 'subscriber', 'derived', 'stored') and (n, c['Kind'], c['Prov']) not in KNOWN_CTX_ROWS:
+                    out.append((n, f"{c['Kind']} with context of provenance {c['Prov']} ({r['File']}:{c['Line']})"))
+        elif prop == 'C12':
+            for s_ in r['StateRows'] or []:
+                if (n, s_['Var']) not in KNOWN_STATE_ROWS:
+                    out.append((n, f"variable {s_['Var']} declared in the {s_['DeclScope']} scope is written from the {s_['WriteScope']} scope ({r['File']}:{s_['Line']})"))
+        elif prop == 'C14':
+            blocks = r['Waits'] > 0 or r['RecvOutsideGo']
+            if blocks and n not in KNOWN_WAITING:
+                out.append((n, f"subscribe function blocks (Wait/receive) ({r['File']}:{r['Line']})"))
+            if r['Discarded'] > 0:
+                out.append((n, f"{r['Discarded']} upstream subscription(s) dropped ({r['File']}:{r['Line']})"))
+            if r['SubscribeSites'] > 0 and r['Returns'] in ('nil', 'none') and n != 'RepeatWith':
+                out.append((n, f"subscribes upstream but returns no teardown ({r['File']}:{r['Line']})"))
+        elif prop == 'C07':
+            for g in r['GoStmts'] or []:
+                if g['Kind'] == 'go' and g['CallsUser'] and not g['Recovered'] and n != 'Future':
+                    out.append((n, f"goroutine running user code without recover ({r['File']}:{g['Line']})"))
+    return out
+
+
+def combine_search(*fns):
+    """several searches for one property: each is asked in turn; True as soon as one reported something"""
+    fns = [f for f in fns if f]
+    def search(ctx, out):
+        found = False
+        for f in fns:
+            try:
+                found = bool(f(ctx, out)) or found
+            except Exception as e:            # a diagnosis helper must never hide the violation itself
+                ctx.notes.append(f'search helper failed: {e!r}')
+        return found
+    return search
+
+
+def table_search(prop, dynamic=None):
+    """search function for report_lake_failure: name the changed rows; `dynamic(ctx, rows)` may turn
+    them into a concrete failing input (returns True when it reported a violation with a replay)"""
+    def search(ctx, out):
+        rows = bad_rows(prop)
+        if not rows:
+            return False
+        if dynamic is not None and dynamic(ctx, rows):
+            return True
+        txt = 'proof obligation over the regenerated table RoGen.Catalogue no longer holds (lean/RoProps)\n' + \
+              '\n'.join(f'row {n}: {why}' for n, why in rows) + '\n'
+        ctx.violation(f'{prop}: regenerated fact rows violate the predicate: ' + ', '.join(sorted({n for n, _ in rows})), txt, no_input=True)
+        return True
+    return search
+
+
 # ---------------------------------------------------------------- common preamble
 
-def preamble(ctx, race=False):
+def preamble(ctx, race=False, modules=None):
     ok, out = R.build_go(race=race)
     if not ok:
         print('ERROR: the Go harness does not build against ' + R.REPO + ' (with -tags verif):\n' + out[-4000:])
         return False
     R.run_extract(ctx)
-    module = 'RoProps.' + ctx.prop
-    ctx.checker_cmds.append(f'cd lean && lake build {module} driver')
-    ok, out = R.lake_build([module, 'driver'])
+    targets = ['RoProps.' + m for m in (modules or [ctx.prop])]
+    ctx.checker_cmds.append('cd lean && lake build ' + ' '.join(targets) + ' driver')
+    ok, out = R.lake_build(targets + ['driver'])
     if not ok:
         # a regenerated fact table no longer satisfies its predicate (the hand-written Lean is static)
         errs = re.findall(r'error: (\S+\.lean:\d+:\d+): (.*)', out)
@@ -79,10 +166,19 @@ def preamble(ctx, race=False):
     return True
 
 
-def audit(ctx):
+def audit(ctx, modules=None):
     if ctx.lake_failed:
+        # nothing is discharged while the build is broken: list the obligations as open
+        for m in (modules or [ctx.prop]):
+            try:
+                src = open(os.path.join(R.LEAN, 'RoProps', m + '.lean')).read()
+            except OSError:
+                continue
+            for name in re.findall(r'^#print axioms\s+(\S+)', src, flags=re.M):
+                ctx.obligations.append((name, False, None))
         return
-    R.axiom_audit(ctx, ctx.prop)
+    for m in (modules or [ctx.prop]):
+        R.axiom_audit(ctx, m)
     for name, good, ax in ctx.obligations:
         if not good:
             ctx.violation(f'theorem {name} is not discharged with the allowed axioms (axioms: {ax})',
@@ -120,9 +216,20 @@ def run(ctx):
         print(f'{ctx.prop}: no check registered')
         return 2
     fn = mod.check
-    if not preamble(ctx, race=getattr(mod, 'NEEDS_RACE', False)):
+    if not preamble(ctx, race=getattr(mod, 'NEEDS_RACE', False), modules=getattr(mod, 'LEAN_MODULES', None)):
         return 2
-    audit(ctx)
+    audit(ctx, getattr(mod, 'LEAN_MODULES', None))
+    if ctx.tier == 'thorough' and not ctx.lake_failed:
+        # independent re-check of the compiled property modules by the toolchain's olean checker
+        for m in (getattr(mod, 'LEAN_MODULES', None) or [ctx.prop]):
+            cmd = ['lake', 'env', 'leanchecker', 'RoProps.' + m]
+            ctx.checker_cmds.append('cd lean && ' + ' '.join(cmd))
+            with R.Lock('lake'):
+                rc, o, e = R.sh(cmd, cwd=R.LEAN, timeout=1800)
+            if rc != 0:
+                ctx.violation(f'leanchecker rejects RoProps.{m}', f'leanchecker RoProps.{m}\n' + (o + e)[-3000:], no_input=True)
+            else:
+                ctx.notes.append(f'leanchecker RoProps.{m}: ok')
     replay_known(ctx)
     info = fn(ctx) or {}
     report_lake_failure(ctx, info.get('search'))
@@ -150,7 +257,8 @@ def replay_known(ctx):
 
 def replay(ctx, path):
     """re-run the case lines of a replay file on the implementation and the model"""
-    if not preamble(ctx):
+    mod = load_check(ctx.prop)
+    if not preamble(ctx, modules=getattr(mod, 'LEAN_MODULES', None)):
         return 2
     lines = [l.strip() for l in open(path if os.path.isabs(path) else os.path.join(R.VERIF, path)) if l.startswith('case ')]
     if not lines:
@@ -158,11 +266,25 @@ def replay(ctx, path):
         print('(no case line in this replay file: it names the theorem / table rows that no longer check)')
         return 1
     bad = 0
+    # a check module may judge a replayed case itself (`replay_judge(case, go_res, lean_res) -> list of reasons`),
+    # e.g. when the implementation line carries oracle fields the model line does not have, or say which
+    # fields of a result line take part in the comparison (`replay_proj`)
+    judge = getattr(load_check(ctx.prop), 'replay_judge', None)
+    rproj = getattr(load_check(ctx.prop), 'replay_proj', None)
     for c, g, l in R.replay_cases(ctx, lines):
         print(c)
         print('  implementation:', g)
         print('  model/spec:    ', l)
-        if R.parse_res(g).get('_raw', '').split()[2:] != R.parse_res(l).get('_raw', '').split()[2:]:
+        if judge is not None:
+            reasons = judge(c, g, l)
+            for r in reasons:
+                print('  ->', r)
+            if reasons:
+                bad += 1
+        elif rproj is not None:
+            if rproj(R.parse_res(g)) != rproj(R.parse_res(l)):
+                bad += 1
+        elif R.parse_res(g).get('_raw', '').split()[2:] != R.parse_res(l).get('_raw', '').split()[2:]:
             bad += 1
     print('differs' if bad else 'agrees')
     return 1 if bad else 0
